@@ -275,7 +275,7 @@ def run_tree(data, counters, fails, nontriv, samples, n_attempts):
         st_valid = os.stat(h.cache)
         rich = bool(lc['outputs']) and bool(lc['created'])
         for _ in range(n_attempts):
-            spec = data.draw(st.one_of(corruption_specs, corruption_specs, type_specs))
+            spec = data.draw(gen.weighted([(2, corruption_specs), (1, type_specs)]))
             if spec['kind'] != 'type' and data.draw(st.sampled_from(range(5))) == 0:
                 spec = dict(spec, link=data.draw(st.sampled_from(['abs', 'rel'])))
                 make_link(h, spec)
